@@ -113,7 +113,7 @@ func MakeLookupPlan(seed int64, k int) LookupPlan {
 		// The stale slot: X is the sibling of H. The peers answer the first
 		// request for H with the valid block X alone, later ones with the true
 		// block, and the non-witness request with both.
-		return LookupPlan{Seed: 606_100, K: k, Fixed: true, Peers: 2, ChainLen: 80, Preset: chaingen.PresetNoRetarget, Rel: "sibling",
+		return LookupPlan{Seed: 606_100, K: k, Fixed: true, Peers: 3, ChainLen: 80, Preset: chaingen.PresetNoRetarget, Rel: "sibling",
 			Groups: [][]LookupCall{
 				one(LookupCall{Target: "plain", Why: "another block (the wrapped store is transparent)"}),
 				one(LookupCall{Target: "H", Retries: 2, Stream: st(KOther, KOther), Why: "answered with the valid block X only"}),
@@ -127,7 +127,7 @@ func MakeLookupPlan(seed int64, k int) LookupPlan {
 		// (and must be X); the first request for H is answered with the true
 		// block, the retry with X; then concurrently with another call, with a
 		// mutated X first; then with an invalid block under H's own header.
-		return LookupPlan{Seed: 606_101, K: k, Fixed: true, Peers: 3, ChainLen: 100, Preset: chaingen.PresetRetarget, Rel: "child",
+		return LookupPlan{Seed: 606_101, K: k, Fixed: true, Peers: 4, ChainLen: 100, Preset: chaingen.PresetRetarget, Rel: "child",
 			Groups: [][]LookupCall{
 				one(LookupCall{Target: "X", Why: "the block the lookup answers with, under its own hash"}),
 				one(LookupCall{Target: "H", Retries: 2, Stream: st(KHonest, KOther), Why: "true block first, the retry answered with X"}),
@@ -140,7 +140,7 @@ func MakeLookupPlan(seed int64, k int) LookupPlan {
 
 	r := rand.New(rand.NewSource(seed*1_000_003 + int64(k)*611_953 + 60_607))
 	p := LookupPlan{Seed: seed*1_000_003 + 700_000 + int64(k), K: k}
-	p.Peers = 2 + r.Intn(2)
+	p.Peers = 2 + r.Intn(3)
 	p.ChainLen = 60 + r.Intn(101)
 	p.Preset = k % chaingen.NumPresets
 	p.Rel = lookupRels[mod(k+int(seed), len(lookupRels))]
@@ -173,10 +173,33 @@ func MakeLookupPlan(seed int64, k int) LookupPlan {
 		}
 		return false
 	}
-	hCall := func(base bool, why string) LookupCall {
+	// A client that judges an answer against another header than the
+	// requested one may ban its sender; so that such a client is not left
+	// without peers (its calls would then only end by the watchdog), at most
+	// Peers-1 steps of a scenario are of a kind that could be held against
+	// the sender under ANY header: everything but the true block, silence,
+	// and the valid block X in the full (witness) encoding.
+	budget := p.Peers - 1
+	hCall := func(base bool, why string, needX bool) LookupCall {
 		c := LookupCall{Target: "H", Base: base, Why: why}
 		for i, n := 0, 1+r.Intn(2); i < n; i++ {
 			c.Stream = append(c.Stream, step())
+		}
+		if needX && !carriesX(c.Stream) {
+			// Every scenario has a call for H during which the valid block X
+			// is delivered.
+			c.Stream[len(c.Stream)-1] = Step{K: []Kind{KOther, KOtherHonest}[r.Intn(2)]}
+		}
+		for i, x := range c.Stream {
+			if x.K == KHonest || x.K == KNothing || !base && (x.K == KOther || x.K == KOtherHonest) {
+				continue
+			}
+			if budget > 0 {
+				budget--
+				continue
+			}
+			c.Stream[i] = Step{K: KOther}
+			c.Base = false
 		}
 		c.Retries = uint8(len(c.Stream))
 		return c
@@ -188,12 +211,7 @@ func MakeLookupPlan(seed int64, k int) LookupPlan {
 		p.Groups = append(p.Groups, one(LookupCall{Target: "plain", Why: "another block (the wrapped store is transparent)"}))
 	}
 	firstBase := r.Intn(3) == 0
-	first := hCall(firstBase, "first request for H")
-	if !carriesX(first.Stream) {
-		// Every scenario has a call for H during which the valid block X is
-		// delivered.
-		first.Stream[len(first.Stream)-1] = Step{K: []Kind{KOther, KOtherHonest}[r.Intn(2)]}
-	}
+	first := hCall(firstBase, "first request for H", true)
 	if r.Intn(3) == 0 {
 		p.Groups = append(p.Groups, []LookupCall{first, {Target: "plain", Why: "concurrent bystander call"}})
 	} else {
@@ -202,11 +220,11 @@ func MakeLookupPlan(seed int64, k int) LookupPlan {
 	for i, n := 0, 1+r.Intn(3); i < n; i++ {
 		switch r.Intn(4) {
 		case 0:
-			p.Groups = append(p.Groups, one(hCall(firstBase, "same hash and encoding again (cache?)")))
+			p.Groups = append(p.Groups, one(hCall(firstBase, "same hash and encoding again (cache?)", false)))
 		case 1:
-			p.Groups = append(p.Groups, one(hCall(!firstBase, "same hash, other encoding")))
+			p.Groups = append(p.Groups, one(hCall(!firstBase, "same hash, other encoding", false)))
 		case 2:
-			p.Groups = append(p.Groups, []LookupCall{hCall(r.Intn(2) == 0, "concurrent calls for H"), hCall(r.Intn(2) == 0, "concurrent calls for H")})
+			p.Groups = append(p.Groups, []LookupCall{hCall(r.Intn(2) == 0, "concurrent calls for H", false), hCall(r.Intn(2) == 0, "concurrent calls for H", false)})
 		default:
 			p.Groups = append(p.Groups, one(LookupCall{Target: "plain", Why: "another block in between"}))
 		}
@@ -552,7 +570,7 @@ func LookupScenario(seed int64, k int, res *l2.Result) {
 				continue
 			}
 			for _, pt := range a.Parts {
-				if pt.OtherInvalid && pt.Hdr == xHash {
+				if pt.OtherInvalid && pt.Hdr == xHash && xInChain {
 					for _, c := range calls {
 						if c.Hash == X.Hash && c.End > a.RxSeq {
 							anyBad = true
